@@ -128,8 +128,11 @@ def _spec():
                      tscale=lambda c, t: min(t, abs(t - c["xtilde"] / c["D"])),
                      times=lambda c: [f * c["xtilde"] / c["D"] for f in (0.5, 1.1, 2.0, 3.3)],
                      domain=lambda c, t: (c["up"] * t + 1e-9, min(9.9, 1.1 * max(c["xtilde"], c["D"] * t))))
+    # Guderley costs 10-100 ms per POINT (one ODE integration each): 65-point scan + bisection to 1e-5 of the domain,
+    # 6 lattice points per region; quick tier: one time before and one after the reflection
     S["Guderley"] = dict(pde="entropy", cls="B", radial=True, maxloci=2, tscale=lambda c, t: abs(t - LAZARUS), bisect=True, split=True,
-                         reduced=LAZARUS)
+                         reduced=LAZARUS, npts=6,
+                         times={"quick": lambda c: [0.6, 0.9], "thorough": lambda c: [0.3, 0.6, 0.9, 1.2]})
     return S
 
 
@@ -170,7 +173,11 @@ def preimport():
 
 def tasks(tier, seed):
     out = []
-    for f in families():
+    fams = families()
+    # the per-time tasks of the expensive families are issued first (they determine the wall time); within a family
+    # the order is simplest (fewest deviations) first
+    fams = [f for f in fams if spec(f["name"]).get("split")][::-1] + [f for f in fams if not spec(f["name"]).get("split")]
+    for f in fams:
         sp = spec(f["name"])
         k = K[tier]
         if f["cost"] == "heavy":
@@ -318,8 +325,8 @@ def _zones_dense(pr, sp, a, b, n, t, cell=None):
 
 
 def _zones_bisect(pr, sp, a, b, t):
-    js = oracle.locate_jumps(lambda x: pr.matrix(x, t), a, b, n=129, geometric=True, max_jumps=4, tol=1e-7)
-    w = 1e-6 * (b - a)
+    js = oracle.locate_jumps(lambda x: pr.matrix(x, t), a, b, n=65, geometric=True, max_jumps=4, tol=1e-5)
+    w = 1e-4 * (b - a)
     return [{"lo": j["lo"] - w, "hi": j["hi"] + w, "jump": j["rel"], "kink": 0.0, "kind": "jump"} for j in js]
 
 
@@ -398,7 +405,7 @@ def level(f, sp, cfg, pr, t, tier, res, tkey):
         if dropped:
             cnt("loci_beyond_documented_count_not_excluded", len(dropped))
         zones3.append(z)
-    pad = (b - a) / (nscan - 1) if not sp.get("bisect") else 1e-6 * (b - a)
+    pad = (b - a) / (nscan - 1) if not sp.get("bisect") else 1e-4 * (b - a)
     hulls, unmatched = fd.hull(zones3, 1, 0.05 * (b - a), 2.0 * pad)
     if unmatched:
         cnt("loci_seen_at_only_some_times_of_the_stencil", unmatched)
@@ -432,9 +439,9 @@ def level(f, sp, cfg, pr, t, tier, res, tkey):
             if B2 - A2 < 4 * cell:
                 cnt("segments_too_narrow_for_a_stencil")
                 continue
-            x = fd.lattice(A2, B2, NPTS, False)
+            x = fd.lattice(A2, B2, sp.get("npts", NPTS), False)
         else:
-            x = fd.lattice(A, B, NPTS, sp["radial"] and A > 0 and B / A > 4)
+            x = fd.lattice(A, B, sp.get("npts", NPTS), sp["radial"] and A > 0 and B / A > 4)
         ell = np.minimum(W, np.abs(x)) if sp["radial"] else np.full_like(x, W)
         ell = np.where(ell > 0, ell, W)
         hs = []
@@ -488,8 +495,8 @@ def level(f, sp, cfg, pr, t, tier, res, tkey):
     variants = [("", 1.0)]
     if sp.get("reduced"):
         variants.append((":lazarus-time-units", sp["reduced"]))
-    best = {}          # (variant, clause) -> (res array, nontrivial array, tol)
-    anyvalid = np.zeros(n, bool)
+    # per (variant, clause, step): residual, non-triviality, usable mask, term values (for the smoothness gate)
+    per = {}
     for i in range(ns):
         valid = (X - 2 * H[i] >= segA) & (X + 2 * H[i] <= segB)
         for vtag, tf in variants:
@@ -500,17 +507,38 @@ def level(f, sp, cfg, pr, t, tier, res, tkey):
             for eq in eqs:
                 clause, terms, tol = eq[:3]
                 r_, nt_ = fd.balance(terms, tol, eq[3] if len(eq) > 3 else None)
-                use = valid & okf & gate
-                r_ = np.where(use, r_, np.inf)
-                nt_ = nt_ & use
-                key = (vtag, clause)
-                if key not in best:
-                    best[key] = [r_, nt_, tol]
-                else:
-                    best[key][0] = np.minimum(best[key][0], r_)
-                    best[key][1] = best[key][1] | nt_
-            if vtag == "":
-                anyvalid |= valid & okf & gate
+                per[(vtag, clause, i)] = (r_, nt_, valid & okf & gate, np.array([t_[0] for t_ in terms]),
+                                          np.array([t_[1] for t_ in terms]).sum(axis=0), tol)
+    # "wherever smooth", measured at the scale of the stencil: a point is judged for an equation only if the terms of that
+    # equation computed with two consecutive step sizes agree to kappa = tol/30 (a stencil over a kink, an unresolved table
+    # cell or solver noise fails this; a smooth but wrong field passes it and is judged)
+    best = {}          # (variant, clause) -> [res array (inf where not judged), nontrivial array, tol]
+    for vtag, _tf in variants:
+        for clause in sorted({c for (v_, c, _i) in per if v_ == vtag}):
+            tol = per[(vtag, clause, 0)][5]
+            kappa = tol / 30.0
+            r0 = np.full(n, np.inf)
+            nt0 = np.zeros(n, bool)
+            for i in range(ns - 1):
+                ra, na, ua, Va, Na, _ = per[(vtag, clause, i)]
+                rb, nb, ub, Vb, Nb, _ = per[(vtag, clause, i + 1)]
+                with np.errstate(all="ignore"):
+                    inc = np.abs(Va - Vb).sum(axis=0) / (np.abs(Va).sum(axis=0) + np.abs(Vb).sum(axis=0) + (Na + Nb) / kappa + 1e-300)
+                ok = ua & ub & (inc <= kappa)
+                r0 = np.where(ok, np.minimum(r0, np.minimum(ra, rb)), r0)
+                nt0 |= ok & (na | nb)
+            best[(vtag, clause)] = [r0, nt0, tol]
+    usable = np.zeros(n, bool)
+    for (vtag, clause, i), v_ in per.items():
+        if vtag == "":
+            usable |= v_[2]
+    anyvalid = np.zeros(n, bool)
+    for (vtag, clause), v_ in best.items():
+        if vtag == "":
+            anyvalid |= np.isfinite(v_[0])
+    cnt("points_not_smooth_at_stencil_scale", int((usable & ~anyvalid).sum()))
+    cnt("point_equations_judged", int(sum(np.isfinite(v_[0]).sum() for (vt_, c_), v_ in best.items() if vt_ == "")))
+    cnt("point_equations_not_smooth_at_stencil_scale", int(sum((usable & ~np.isfinite(v_[0])).sum() for (vt_, c_), v_ in best.items() if vt_ == "")))
     if DEBUG is not None:
         DEBUG.update(X=X, REG=REG, best=best, H=H, segs=segs, anyvalid=anyvalid)
     cnt("points_without_usable_stencil", int((~anyvalid).sum()))
@@ -521,12 +549,19 @@ def level(f, sp, cfg, pr, t, tier, res, tkey):
     clauses = sorted({c for (_, c) in best})
     for clause in clauses:
         r0, nt0, tol = best[("", clause)]
-        nontriv |= nt0 & anyvalid
-        bad = anyvalid & (r0 > tol)
-        fin = np.where(anyvalid, r0, 0.0)
+        judged = np.isfinite(r0)
+        nontriv |= nt0 & judged
+        bad = judged & (r0 > tol)
+        fin = np.where(judged, r0, 0.0)
         wk = "%s|%s" % (f["name"], clause)
         if fin.size and fin.max() > worst.get(wk, 0.0) and not bad.any():
             worst[wk] = float(fin.max())
+        if sp.get("reduced"):
+            rr_ = best[(":lazarus-time-units", clause)][0]
+            rr_ = np.where(np.isfinite(rr_), rr_, 0.0)
+            wk = "%s|%s|reduced-oracle(d/dt x %.9f)" % (f["name"], clause, sp["reduced"])
+            if rr_.size and rr_.max() > worst.get(wk, 0.0):
+                worst[wk] = float(rr_.max())
         if not bad.any():
             continue
         # neighbour rule: two adjacent lattice points of the same region must both fail
@@ -556,7 +591,7 @@ def level(f, sp, cfg, pr, t, tier, res, tkey):
         res["sample"] = {"family": f["name"], "cfg": cfg, "t": t, "segments": [[float(A), float(B)] for A, B in segs][:6],
                          "loci": [[float(lo), float(hi)] for lo, hi in hulls][:6], "n_points": int(n),
                          "clauses": clauses, "steps_r_first_point": [float(h[0]) for h in H], "steps_t": [float(k_) for k_ in ks],
-                         "worst_residual": {c: float(np.where(anyvalid, best[("", c)][0], 0.0).max()) for c in clauses}}
+                         "worst_residual": {c: float(np.where(np.isfinite(best[("", c)][0]), best[("", c)][0], 0.0).max()) for c in clauses}}
 
 
 def run_task(task):
